@@ -121,6 +121,9 @@ class SBool(CantSympify):
         return self
 
     def __repr__(self):
+        from .engine import Engine
+        if Engine.current is None:
+            return "<symbolic bool>"
         return "True" if bool(self) else "False"
 
     __str__ = __repr__
@@ -439,6 +442,10 @@ _DIG = _re.compile(r"\d+(?:\.\d+)?(?:e[+-]?\d+)?")
 
 def _text_of(x, how):
     """placeholder text for a proxy, learned from the real type's own str/repr/format on an exemplar"""
+    from .engine import Engine
+    if Engine.current is None:
+        # outside an exploration (e.g. an exception message rendered afterwards): a neutral description
+        return "<symbolic %s>" % x.tag.__name__
     tag = x.tag
     kind = x.v.kind
     fmt = {"str": str, "repr": repr, "format": lambda e: "{}".format(e)}[how]
